@@ -6,15 +6,23 @@
     MDP::QGreedyPolicy(q)                 -> Bandit::QGreedyPolicyWrapper::getActionProbability  (tolerance ties, `checkEqualGeneral`)
     MDP::EpsilonPolicy(QGreedyPolicy(q))  -> EpsilonPolicyInterface::getActionProbability       ((1-ε)·p + ε·(1/A))
   both of which READ A TABLE BY REFERENCE: for ExpectedSARSA the learner's own (caller-owned) table, so the
-  target policy changes with every update.  The scans themselves are the C09 model (`AITB.Pol.gProb`, `AITB.Pol.epsProb`);
+  target policy changes with every update.  The scans themselves are the C09 model (`AITB.Pol.GForm.prob` in the extracted form, `AITB.Pol.epsProb`);
   here they are lifted to `S×A` tables and plugged into the learners.
 -/
 import AITB.Model.Learners
 import AITB.Model.Policies
 namespace AITB.Learn
 
+/-- `QGreedyPolicyWrapper::getActionProbability(a)` in the form the SOURCE has: the translator flag `Gen.C09.greedyMaxFirst`
+    (C09's plug-in) says whether the wrapper takes `q_.maxCoeff()` first and tie-tests every entry against that true maximum
+    (`GForm.repaired`: `1/count` on the entries `checkEqualGeneral` to the maximum, else 0 — repo 48b02c6) or scans with a running
+    comparison against `q_[a]` (`GForm.asWritten` = `Pol.gProb`, the form found in rounds 1–3). -/
+def gForm : AITB.Pol.GForm := if AITB.Gen.C09.greedyMaxFirst then AITB.Pol.GForm.repaired else AITB.Pol.GForm.asWritten
+
+def gProbX (q : Nat → Rat) (n a : Nat) : Rat := gForm.prob q n a
+
 /-- `QGreedyPolicy(tbl).getActionProbability(s, a)` -/
-def greedyPol (A : Nat) (tbl : QF) : Nat → Nat → Rat := fun s a => AITB.Pol.gProb (tbl s) A a
+def greedyPol (A : Nat) (tbl : QF) : Nat → Nat → Rat := fun s a => gProbX (tbl s) A a
 
 /-- `EpsilonPolicy(p, ε).getActionProbability(s, a)` -/
 def epsPol (ε : Rat) (A : Nat) (p : Nat → Nat → Rat) : Nat → Nat → Rat := fun s a => AITB.Pol.epsProb ε (p s) A a
